@@ -67,3 +67,10 @@ Proof. split; vm_compute; reflexivity. Qed.
 Lemma no_namesake_satisfiable :
   wf ns_filepath_alias = true /\ forallb (g_no_namesake_bare "new") (all_nodes ns_filepath_alias) = true.
 Proof. split; vm_compute; reflexivity. Qed.
+
+Lemma truncateCmp_real_refuted :
+  exists f, wf f = true /\ exists w, In w (warnings (run_truncateCmp true f)) /\ is_real w = false.
+Proof. refute_real ns_cast_pkgfunc. Qed.
+Lemma nilValReturn_real_refuted :
+  exists f, wf f = true /\ exists w, In w (warnings (run_nilValReturn f)) /\ is_real w = false.
+Proof. refute_real ns_nil_local. Qed.
